@@ -51,13 +51,26 @@ impl ServerFx {
 
     pub fn start_with(kv: Bitcask, max_connections: usize, workers: usize, base_threads: usize) -> Result<ServerFx, String> {
         let handle = kv.get_handle();
+        Self::start_with_storage(kv, handle, max_connections, workers, base_threads)
+    }
+
+    /// Like `start_with`, but the server is given `storage` (any `KeyValueStorage`, normally a
+    /// wrapper around a handle of `kv`) instead of a plain handle.
+    pub fn start_with_storage<KV: bitcask::storage::KeyValueStorage + Sync>(
+        kv: Bitcask,
+        storage: KV,
+        max_connections: usize,
+        workers: usize,
+        base_threads: usize,
+    ) -> Result<ServerFx, String> {
+        let handle = kv.get_handle();
         for _attempt in 0..200 {
             let port = next_port();
             let (ready_tx, ready_rx) = std::sync::mpsc::channel::<Result<(), String>>();
             let (sd_tx, sd_rx) = tokio::sync::oneshot::channel::<()>();
             let returned = Arc::new(AtomicBool::new(false));
             let returned2 = returned.clone();
-            let h2 = handle.clone();
+            let h2 = storage.clone();
             let th = std::thread::Builder::new()
                 .name("vh-server".into())
                 .spawn(move || {
